@@ -33,15 +33,18 @@ TEXTS["C02"] = dict(
                "sequential histories slots must strictly increase in release order (under concurrency response order is not defined, so only the pairwise check applies there).",
     level_note=TRUST)
 TEXTS["C03"] = dict(
-    technique="deterministic simulation: crash injection at seeded yield points with restart on directory images (exact / torn / after-write), ledger + sign-seam + acknowledgement-durability oracles",
-    level_text="Seeded search over (history, schedule, crash point, surviving image) for one real Dirk instance on badger: the simulator kills the incarnation at a "
-               "drawn yield point (biased to: before a store write, torn inside it, after it but before approval, between approval and Sign), restarts the real "
-               "stack on the surviving directory image and continues with conflict-seeking requests, up to 3 crashes per run. Oracles: no conflicting pair in the "
-               "ledger of released signatures across incarnations; export after each restart covers every released signature; when Sign is invoked the live "
-               "store and (sampled) a fresh rules service opened on a copy of the directory already cover the duty (record-then-sign); with GOMAXPROCS=1 the value "
-               "log must not grow after a storage call has returned (acknowledged before written); SyncWrites is on for every opened store.",
-    level_note=TRUST + " Process-kill semantics only in this layer: the image is the directory at a quiescent instant; page-cache loss (power failure) is not modelled here, "
-               "so an fsync that is dropped while the write() still happens is caught only through the SyncWrites option check.")
+    technique="deterministic simulation with crash injection: (1) in-process crashes at seeded yield points with restart on directory images, (2) real child processes SIGKILLed at every storage point, (3) power-loss images derived from a syscall trace of a child; ledger, sign-seam and acknowledgement oracles",
+    level_text="Three layers. (1) Seeded search over (history, schedule, crash point, surviving image) for one real Dirk instance on badger: the simulator kills the incarnation at a drawn yield "
+               "point (biased to: before a store write, torn inside it, after it but before approval, between approval and Sign), restarts the real stack on the surviving directory image and "
+               "continues with conflict-seeking requests, up to 3 crashes per run; oracles: no conflicting pair in the ledger of released signatures across incarnations, export after each "
+               "restart covers every released signature, when Sign is invoked the live store and (sampled) a fresh process on a copy of the directory already cover the duty, with "
+               "GOMAXPROCS=1 the value log must not grow after a storage call has returned, SyncWrites is on. (2) The same kind of seeded workload in a real child process that SIGKILLs "
+               "itself at its N-th storage point (entry and completion of Fetch/Store/BatchStore), N swept over the workload by consecutive seeds; the parent holds the signatures announced "
+               "on stdout, reopens the directory and requires coverage and refusal of every conflicting duty. (3) A child is traced with strace; from openat flags, writes and fsyncs a per-file "
+               "durability model is built and, for every system-call boundary after the first released signature, images = durable prefix + {nothing, a write-back prefix, a torn prefix} of "
+               "the volatile suffix (and torn synchronous writes) are opened by a fresh rules service, which must cover everything released before the cut.",
+    level_note=TRUST + " Layer 1 is process-kill semantics on a quiescent directory image; layer 3 assumes append-only files and ordered directory operations (true for badger's value log and MANIFEST) "
+               "and does not model reordering inside a synced range. An image that badger refuses to open (torn tail, truncation is off) counts as safe: the instance signs nothing.")
 TEXTS["C08"] = dict(
     technique="deterministic simulation: seeded batch shapes x GOMAXPROCS with scheduled scatter workers; independent SSZ signing root + BLS verification per position",
     level_text="Seeded search over request kind, batch size (1..512) and GOMAXPROCS (1..128), with scatter workers of small batches released in drawn order by the "
